@@ -304,6 +304,23 @@ def cases(draw):
 	from vf import syngen
 	rnd = draw(st.randoms(use_true_random=False))
 	src, stats = syngen.gen_module(rnd, rnd.choice(['mixed', 'mixed', 'mixed', 'expr']))
+	if rnd.random() < 0.25:
+		# a comment line (indented like the line after it) holding a character that str.splitlines() treats as a line boundary although the parser does not
+		# (form feed "page break", file / group / record separators): lines are counted by '\n' only
+		lines = src.split('\n')
+		k = rnd.randint(0, len(lines) - 1)
+		if not any(q in '\n'.join(lines[:k]) for q in ('"""', "'''")) or '\n'.join(lines[:k]).count('"""') % 2 == 0:
+			probe = '\n'.join(lines[:k])
+			try:
+				import ast as _ast
+				_ast.parse(probe + '\n') if probe.strip() else None
+				inside = False
+			except SyntaxError:
+				inside = True   # k is inside a bracket / string / block header continuation: leave the text alone
+			if not inside:
+				follow = lines[k] if k < len(lines) else ''
+				lines.insert(k, follow[:len(follow) - len(follow.lstrip(' \t'))] + '#' + rnd.choice(['\x0c', '\x1c', '\x1d', '\x1e', '\x0b']) + ' page')
+				src = '\n'.join(lines)
 	return {'source': src, 'picks': [rnd.randint(0, 10 ** 6) for _ in range(12)]}
 
 
